@@ -103,6 +103,10 @@ func escape(s string) string {
 }
 
 func isNumeric(s string) bool {
+	// JSON numbers may not have leading zeros (007 has to stay a string)
+	if len(s) > 1 && s[0] == '0' && s[1] != '.' {
+		return false
+	}
 	i := 0
 	for ; i < len(s); i++ {
 		r := s[i]
